@@ -29,6 +29,10 @@ K_RT = "C18:arrays-differ-after-reload"
 K_ACC = "C18:accessors-disagree-with-connectivity-array"
 K_HIST = "C18:file-content-depends-on-what-the-path-held-before"
 K_STATIC = "C18:writer-open-mode-or-derived-state-in-SegmentList"
+K_SCALE = "C18:segment-view-of-a-large-morphology"
+K_PATH = "C18:round-trip-depends-on-the-form-of-the-file-name"
+K_RELOAD = "C18:second-load-returns-state-of-an-earlier-load"
+K_ENV = "C18:result-depends-on-interpreter-flags-hash-seed-or-cwd"
 K_FRAME = "C18:operation-on-one-morphology-changes-another-or-the-callers-arrays"
 
 
@@ -848,9 +852,13 @@ def run(ck):
         return c
     fr = gen_frames(ck)
     hs = gen_histories(ck)
+    # repetition: load, use (re-root in place), load again
+    reload_docs = [c for c in dc if effective_names(c)[1] and (c["cells"] or c["morphs"])][:ck.n(12, 60)]
     out = ck.impl("c18_impl.py", {"to_root": [strip(c) for c in tr], "views": [strip(c) for c in vw],
                                   "docs": [strip(c) for c in dc], "morphs": [strip(c) for c in ms],
-                                  "frames": [strip(c) for c in fr], "histories": [strip(c) for c in hs]}, timeout=900)
+                                  "frames": [strip(c) for c in fr], "histories": [strip(c) for c in hs],
+                                  "large": [{"n": 9000}], "paths": True,
+                                  "reloads": [{"doc": strip(d)} for d in reload_docs]}, timeout=900)
 
     dis = {"to_root": 0, "view": 0, "convert": 0, "document": 0, "morphology": 0, "frame": 0, "history": 0}
     orig = {"convert": 0, "document": 0}
@@ -1123,6 +1131,73 @@ def run(ck):
             bad.append("ArrayMorphology assigns attributes outside its arrays: self.%s" % ", self.".join(extra))
         bad += ["ArrayMorphWriter: " + x for x in static.get("writer_open_problems", [])]
         ck.extra["static_facts_deviations"] = bad
+    # ---- scale / form / repetition / environment: judged by the harness predicate only (no Coq literal, see evidence)
+    ck.extra["judged_by_harness_predicate_only"] = [
+        "one 9000-vertex comb morphology: len, every index 0..n-2 (incl. 4095/4096/4097/8191/8192), iteration count, refused "
+        "indices, conversion count and end points, compared in the driver with the arrays (a Coq literal would be ~150k numerals)",
+        "file-name forms (bare, relative, ./, absolute, spaces, non-ASCII, no extension, ../, pathlib.Path if PyTables takes it)",
+        "load / mutate the result / load again: both loads equal the written arrays, no shared objects",
+        "re-run of a deterministic subset under python -O, PYTHONHASHSEED=3, cwd=/: outputs equal to the default run"]
+    for o in out["large"]:
+        n = o["n"]
+        good = (o["len"] == n - 1 and o["indexed_ok"] == n - 1 and not o["first_bad_indices"] and o["iteration_count"] == n - 1
+                and all(o["refused"].values()) and o.get("conv_count") == n - 1 and o.get("conv_ok") == n - 1)
+        ck.tally("view:large-morphology")
+        ck.count(1, nontrivial_key=["large", n])
+        if not good:
+            ck.witness(K_SCALE, "segment view / conversion of a %d-vertex morphology is not one segment per non-root vertex" % n,
+                       input={"vertices": "row v = [v, v % 7, -v, 1 + v % 5] (float64 ndarray)",
+                              "connectivity": "comb: [-1, 0, 1, 2, 2, 4, 4, 6, ...] (odd v -> v-1, even v -> v-2)", "n": n,
+                              "mask": None},
+                       expected={"len": n - 1, "every index 0..n-2 answers with (vertex k+1, its parent)": True,
+                                 "iteration_count": n - 1, "conversion_count": n - 1},
+                       observed=o, broken="C18_segment_view")
+    for o in out["paths"]:
+        ck.tally("file-name-form")
+        ck.count(1, nontrivial_key=["path-form", o["form"]])
+        if not (o["r"] == "ok" and o["np_equal"]):
+            ck.witness(K_PATH, "write + load of a document fails for a file name given as: %s" % o["form"],
+                       input={"file_name": o["path"], "form": o["form"], "cwd": "a fresh temporary directory",
+                              "document": "1 cell with a 2-vertex morphology + 1 stand-alone 3-vertex morphology"},
+                       expected="the written morphologies, arrays identical", observed=o, broken="C18_document_roundtrip")
+    for d, o in zip(reload_docs, out["reloads"]):
+        ck.tally("reload")
+        ck.count(1, nontrivial_key=["reload", strip(d)])
+        good = (o.get("r") == "ok" and o["first_load_equal"] and o["second_load_equal"] and o["third_load_equal"]
+                and not o["same_document_object"] and o["shared_morphology_objects"] == 0 and o["shared_arrays"] == 0)
+        if not good:
+            ck.witness(K_RELOAD, "loading a file again after the first result was used (re-rooted in place) does not give the "
+                                 "written arrays, or two loads share objects",
+                       input={"document": {"cells": d["cells"], "morphology": d["morphs"]},
+                              "steps": ["write", "load -> d1", "to_root(last) and vertices[0][0] += 1000 on every morphology of d1",
+                                        "load -> d2", "load -> d3"]},
+                       expected="d2 and d3 have the written arrays; d1, d2 share no document / morphology / array objects",
+                       observed=o, broken="C18_document_roundtrip")
+    # ---- environment: the same deterministic cases under -O, another hash seed, cwd=/
+    sub = {"to_root": [strip(c) for c in tr[:10]], "views": [strip(c) for c in vw[:10]], "docs": [strip(c) for c in dc[:4]],
+           "histories": [strip(c) for c in hs[:4]], "frames": [strip(c) for c in fr[:2]]}
+
+    def scrub(x):
+        if isinstance(x, dict):
+            return {k: scrub(v) for k, v in x.items() if k != "msg"}
+        if isinstance(x, list):
+            return [scrub(v) for v in x]
+        return x
+    for label, kw in (("python -O", {"pyflags": ["-O"]}), ("PYTHONHASHSEED=3", {"extra_env": {"PYTHONHASHSEED": "3"}}),
+                      ("cwd=/", {"cwd": "/"})):
+        try:
+            o2 = ck.impl("c18_impl.py", sub, timeout=300, **kw)
+        except Exception as e:  # noqa: BLE001
+            ck.oblige("environment:" + label, False, str(e)[-1500:], kind="correspondence")
+            continue
+        diff = [k for k in sub if scrub(o2[k]) != scrub(out[k][:len(sub[k])])]
+        ck.oblige("environment:" + label, not diff, "outputs differ for: %s" % diff, kind="correspondence")
+        ck.tally("environment-rerun:" + label, sum(len(v) for v in sub.values()))
+        for k in diff:
+            i = next(i for i in range(len(sub[k])) if scrub(o2[k][i]) != scrub(out[k][i]))
+            ck.witness(K_ENV, "the implementation's result for the same input differs under %s" % label,
+                       input={"kind": k, "case": sub[k][i], "environment": label},
+                       expected=scrub(out[k][i]), observed=scrub(o2[k][i]))
     for c, o in zip(fr, out["frames"]):
         check_frame(ck, c, o)
         ck.count(1, nontrivial_key=["frame", strip(c)] if any(x[1] == "to_root" and x[2] != 0 for x in c["ops"]) else None,
